@@ -458,6 +458,12 @@ theorem step_SH {cfg : Cfg} (hg : CfgGood cfg) (w : World) (a : Action) (hns : a
       exact timers_SH w _ _ _ ha hS
     | poll => exact SH_same (w := w) (fun _ => rfl) rfl rfl hS
     | scopeEnd s => exact SH_same (w := w) (fun _ => rfl) rfl rfl hS
+    | supEvent c x =>
+      simp only []
+      unfold supPush
+      cases hp : chanPush cfg w 0 c x 2 with
+      | closedErr => exact hS
+      | ok w1 b => exact (chanPush_SH hg.strict hp ha hS).1
     | _ => exact hS
   | some f =>
     have hq : WQuiet w f := hqq f hcur
@@ -466,6 +472,7 @@ theorem step_SH {cfg : Cfg} (hg : CfgGood cfg) (w : World) (a : Action) (hns : a
     | runTask => exact hS
     | timers => exact hS
     | poll => exact hS
+    | supEvent c x => exact hS
     | scopeEnd s => exact SH_same (w := w) (fun _ => rfl) rfl rfl hS
     | go g =>
       simp only []
